@@ -183,7 +183,7 @@ def gen_matrix(tier, seed):
                 (2, 2, "tri", None), (3, 2, "tri", None), (2, 3, "tri", None), (3, 3, "tri", None),
                 (2, 4, "orth", None), (3, 4, "orth", None), (2, 4, "tri", 1), (3, 4, "tri", 1)]
     for (d, n, cell, maxdev) in plan:
-        pots = POTS if n < 4 else POTS[:4]
+        pots = POTS[:4] if n == 4 else (POTS if tier == "thorough" else POTS[:6])
         for (mask, ip, im, shift) in option_vectors(d, pots, maxdev):
             found, H = placements(seed, d, n, mask, cell)
             for g in sorted(found):
@@ -350,12 +350,12 @@ def subs(tier, seed):
         Sub("C11.matrix", gen_matrix, run,
             rule="placements realising EVERY labelled contact graph on N vertices (one jittered, generically rotated template per "
                  "isomorphism class, all relabellings, straddling the periodic faces; per mask and cell) x all type maps {1,2}^N x potentials "
-                 "(LJ, IPL n in {6,10,12.5} x A in {1,2.5}, Hertz alpha in {2,2.5}) x masses {equal, 1:3} x shift on/off x all masks; "
+                 "(LJ, IPL (n,A) in " + ("{(10,1),(6,2.5),(12.5,1)}" if q else "{6,10,12.5} x {1,2.5}") + ", Hertz alpha in {2,2.5}) x masses {equal, 1:3} x shift on/off x all masks; "
                  + ("N=2,3 full product in orthogonal cells, triclinic with <=1 option deviation"
                     if q else "N=2,3 full product in orthogonal and triclinic cells; N=4 (64 graphs x 16 type maps, 4 potentials) full product in orthogonal cells, <=1 option deviation in triclinic cells")
                  + "; every entry of the saved matrix vs hyper-dual and finite-difference second derivatives of the total energy, "
                    "symmetry, translations, omega, eigenvectors, PR; non-trivial = at least one interacting pair",
-            bounds={"N": [2, 3] if q else [2, 3, 4], "d": [2, 3], "potentials": len(POTS), "masses": 2, "shift": 2,
+            bounds={"N": [2, 3] if q else [2, 3, 4], "d": [2, 3], "potentials": 6 if q else len(POTS), "masses": 2, "shift": 2,
                     "graphs": {"2": 2, "3": 8, "4": 64}, "cutoffs": RC}),
         Sub("C11.matrix.cutoff", gen_cutoff, run,
             rule="pair distances 1.95 and 2.05 lying between the species cutoffs 1.9/2.0/2.1, all type maps, N=2,3: interaction "
